@@ -42,7 +42,7 @@ inline Plan Gen(uint64_t seed)
       for (int i=0; i<nops; i++)
       {
          const uint32_t k = wl.below(10);
-         if (k < 4) s += " S" + I(1 + wl.below(3));
+         if (k < 4) s += " S" + I(wl.oneIn(10) ? (9 + (int) wl.below(14)) : (1 + (int) wl.below(3)));   // (sometimes a burst that takes the queue through its growth steps while the receiver lags)
          else if (k < 8) {const uint32_t g = wl.below(3); s += (g == 0) ? std::string(" G0") : ((g == 1) ? (" G" + I(1 + wl.below(200))) : std::string(" GN"));}
          else s += " Y";
       }
